@@ -565,11 +565,69 @@ SESSION_ASSUME = ["in-process server (spawn_worterbuch); about two thirds of the
 
 CHECKS["C13"] = session_check({"mc": "MC_Session", "mc_cfg": {"quick": "MC_Session_noauth.cfg", "thorough": "MC_Session_noauth.cfg"},
                                "gen": sess.gen_c13, "assumptions": SESSION_ASSUME})
-CHECKS["C15"] = session_check({"mc": "MC_Session", "mc_cfg": {"quick": "MC_Session.cfg", "thorough": "MC_Session.cfg"},
-                               "gen": sess.gen_c15, "assumptions": SESSION_ASSUME})
+AUTH_TRACE_CFG = """SPECIFICATION ASpec
+POSTCONDITION TraceAccepted
+CHECK_DEADLOCK FALSE
+"""
+
+
+def c15_check(prop, tier, seed, replay):
+    """the containment table (exhaustive), then the sessions with tokens"""
+    inner = session_check({"mc": "MC_Session", "mc_cfg": {"quick": "MC_Session.cfg", "thorough": "MC_Session.cfg"},
+                           "gen": sess.gen_c15, "assumptions": SESSION_ASSUME + ["grants are legal patterns (a `#` only in last position)"]})
+    if replay and json.load(open(replay)).get("kind") != "auth-table":
+        return inner(prop, tier, seed, replay)
+    import itertools
+    vlib.build_harness()
+    d0 = vlib.workdir(prop + "tab")
+    depth = 3 if tier == "quick" else 4
+    t0 = time.time()
+    st = {"distinct": 0, "generated": 0}
+    if not os.environ.get("VERIF_DEV_SKIP_MC"):
+        out = vlib.tlc(d0, "MC_C15tab", open(os.path.join(vlib.SPEC, "MC_C15tab.cfg" if tier == "quick" else "MC_C15tab_thorough.cfg")).read(),
+                       workers=8, timeout=3000, heap="8g")
+        err, st = vlib.tlc_error(out), vlib.tlc_stats(out)
+        if err or not st:
+            raise ToolError("the containment table fails on the specification: %s\n%s" % (err, out[-3000:]))
+    segs = ["a", "b", "?", "#"]
+    pats = [list(p) for n in range(1, depth + 1) for p in itertools.product(segs, repeat=n)]
+    grants = [g for g in pats if "#" not in g[:-1]]
+    req = os.path.join(d0, "pairs.ndjson")
+    with open(req, "w") as f:
+        f.write(json.dumps({"hdr": True}) + "\n")
+        for g in grants:
+            for p in pats:
+                f.write(json.dumps({"g": g, "p": p}) + "\n")
+    tr = os.path.join(d0, "answers.ndjson")
+    vlib.run_harness(["auth-run", req, tr])
+    env = dict(vlib.TRACE_ENV, TRACE=tr)
+    out = vlib.tlc(d0, "Trace_Auth", AUTH_TRACE_CFG, workers=1, timeout=1800, env=env, heap="3g")
+    npairs = len(grants) * len(pats)
+    tab_viol = []
+    if "Model checking completed. No error" not in out:
+        rej = next((l for l in out.splitlines() if l.startswith('<<"TRACE-REJECTED')), None)
+        if rej is None:
+            raise ToolError("TLC failed on the containment answers:\n" + out[-3000:])
+        m = re.search(r'at record", (\d+)', rej)
+        bad = json.loads(open(tr).read().splitlines()[int(m.group(1)) - 1]) if m else {}
+        p = vlib.save_replay(prop, "table_0", {"property": prop, "kind": "auth-table", "pair": bad})
+        tab_viol.append({"replay": p, "what": "auth::pattern_matches answers %s where the specification's transcription (sound and complete against the "
+                                           "documented match relation, checked by TLC) answers the opposite" % json.dumps(bad)})
+    log(f"[{prop}] containment table: TLC {st['distinct']} pairs sound and complete (depth {depth}); the real pattern_matches agrees on {npairs} pairs, {time.time()-t0:.0f}s")
+    if replay:
+        return {"known": {}, "violations": tab_viol}
+    res = inner(prop, tier, seed, None)
+    res["violations"] = tab_viol + res["violations"]
+    res["coverage"]["containment_pairs_checked"] = npairs
+    res["coverage"]["states"] += st["distinct"]
+    return res
+
+
 CHECKS["C17"] = session_check({"mc": "MC_Session", "mc_cfg": {"quick": "MC_Session_noauth.cfg", "thorough": "MC_Session_noauth.cfg"},
                                "gen": sess.gen_c17, "core_hist": gens.gen_c17_core,
                                "assumptions": SESSION_ASSUME + ["inputs that only the import endpoint / a restart can produce are given to the core directly"]})
+
+CHECKS["C15"] = c15_check
 
 CHECKS["C02"] = session_check({"mc": "MC_C02", "mc_cfg": {"quick": "MC_C02.cfg", "thorough": "MC_C02_thorough.cfg"},
                                "gen": sess.gen_c02, "core_hist": gens.gen_c02_boundary,
